@@ -11,6 +11,8 @@ C08 driver (repository fields as in Driver/C03Lib).
      -> E:CannotFillParentInventories | ok <st revs> <st invs> <st texts> <stackable after T|F>
   scheck <new revision ids, comma separated> <st r i t> <fb r i t>
      -> <checkNew T|F> <stackable T|F>
+  spack <st r i t> <fb r i t>
+     -> ok <st revs> <st invs> <st texts> <stackable after T|F>
   sinv <st r i t> <fb r i t>
      -> <stackable T|F>
 -/
@@ -47,6 +49,12 @@ def handle : List String → String
     match parseNatList new, parseRepo lr li lt, parseRepo fr fi ft with
     | some new, some st, some fb => s!"{showBool (checkNew st new)} {showBool (stackable ⟨st, fb⟩)}"
     | _, _, _ => "bad-op"
+  | ["spack", lr, li, lt, fr, fi, ft] =>
+    match parseRepo lr li lt, parseRepo fr fi ft with
+    | some st, some fb =>
+      let s' := pack ⟨st, fb⟩
+      s!"ok {showRepo s'.st} {showBool (stackable s')}"
+    | _, _ => "bad-op"
   | ["sinv", lr, li, lt, fr, fi, ft] =>
     match parseRepo lr li lt, parseRepo fr fi ft with
     | some st, some fb => showBool (stackable ⟨st, fb⟩)
